@@ -84,10 +84,12 @@ def main():
         shutil.copy(os.path.join(src, 'patch.diff'), dst)
         shutil.copy(os.path.join(src, 'demo.py'), dst)
         meta2 = {'property': pid, 'summary': meta.get('summary'), 'needs': meta.get('needs'),
-                 'author_ran': meta.get('ran'),
+                 'author_ran': meta.get('author_ran', meta.get('ran')),
                  'confirmed_by_lead': {'demo_clean_exit': res['demo_clean_exit'], 'demo_patched_exit': res['demo_patched_exit'],
                                        'tests': res['tests'], 'repo_head': sh('git -C /repo rev-parse --short HEAD').stdout.strip()},
                  'checks_run': res['checks']}
+        if meta.get('note_by_lead'):
+            meta2['note_by_lead'] = meta['note_by_lead']
         json.dump(meta2, open(os.path.join(dst, 'meta.json'), 'w'), indent=1)
     # regenerate the evidence of the checks on the real tree? (left to run_all.sh)
     print(json.dumps(res, indent=1))
